@@ -1,5 +1,6 @@
 """E5 -- sibling rules shared by several properties."""
 import ast
+import re
 
 from .model import AnalysisError, Model, walk_no_nested, norm_stmt
 from . import flow
@@ -74,7 +75,12 @@ def presence_violations(f):
 
 
 def marker_handling(model, codecs=('ber', 'per', 'oer')):
-    """{codec: (function, normalised text of the statements under `if member == EXTENSION_MARKER`)}"""
+    """{codec: (function, node, signature)}: what compile_members does when it meets `...` in the member list, as a
+    name-independent signature derived from the path summaries of the loop body (sa/sem.py):
+        for each path on which the member equals EXTENSION_MARKER:
+            (the in/out-of-extension flag is toggled [`f = not f`] | set to a constant | untouched,
+             the additions list is (re)started under which value of the toggled flag)"""
+    from . import sem
     out = {}
     for c in codecs:
         m = model.mod(CODEC_RELS[c])
@@ -82,14 +88,48 @@ def marker_handling(model, codecs=('ber', 'per', 'oer')):
         if comp is None or 'compile_members' not in comp.methods:
             raise AnalysisError('%s.Compiler.compile_members vanished' % c)
         f = comp.methods['compile_members']
-        txt = None
+        ps = sem.paths(f)
+        if ps is None:
+            raise AnalysisError('%s.Compiler.compile_members: too many paths' % c)
+        node = None
         for n in walk_no_nested(f):
-            if isinstance(n, ast.If) and ast.unparse(n.test) in ('member == EXTENSION_MARKER', 'EXTENSION_MARKER == member'):
-                txt = ' ; '.join(ast.unparse(s).replace('\n', ' ') for s in n.body)
+            if isinstance(n, ast.If) and 'EXTENSION_MARKER' in ast.unparse(n.test):
                 node = n
-        if txt is None:
+        sig = set()
+        found = False
+        for p in sem.with_loop_bodies(ps):
+            marker = [c_ for c_ in p.conds if 'EXTENSION_MARKER' in c_[0] and ' == ' in c_[0] and c_[1]]
+            if not marker:
+                continue
+            found = True
+            flag = 'untouched'
+            flag_sym = None
+            resets = []
+            for name, val in p.env.items():
+                if not isinstance(val, ast.AST):
+                    continue
+                t = sem.ctext(val)
+                mm = re.match(r'^not \(?((\w+)@\d+)\)?$', t)
+                if mm and mm.group(2) == name:
+                    flag, flag_sym = 'toggled', mm.group(1)
+                elif isinstance(val, ast.Constant) and isinstance(val.value, bool):
+                    flag = 'set to %s' % val.value
+            for name, val in p.env.items():
+                if isinstance(val, ast.List) and not val.elts:
+                    when = 'unconditionally'
+                    if flag_sym is not None:
+                        if (flag_sym, False) in p.cond_set():
+                            when = 'when the toggled flag is true'
+                        elif (flag_sym, True) in p.cond_set():
+                            when = 'when the toggled flag is false'
+                    else:
+                        others = sorted(('' if c_[1] else 'not ') + re.sub(r'\w+@\d+', '_', c_[0]) for c_ in p.conds if c_ not in marker and '@' in c_[0])
+                        when = 'under ' + ' & '.join(others) if others else 'unconditionally'
+                    resets.append(when)
+            sig.add((flag, tuple(sorted(resets))))
+        if not found or node is None:
             raise AnalysisError('%s.Compiler.compile_members: no EXTENSION_MARKER branch' % c)
-        out[c] = (f, node, ' '.join(txt.split()))
+        out[c] = (f, node, ' | '.join('flag %s, additions restarted %s' % (fl, list(rs) or 'never') for fl, rs in sorted(sig)))
     return out
 
 
